@@ -34,6 +34,8 @@ ValuesOK(e) ==
     /\ Len(e.res) = Prod(ExpectedShape(e))
     /\ \A t \in 0..(Len(e.lanes) - 1) : \A j \in 0..(Len(e.qs) - 1) :
           QuantileValueOK(e.lanes[t + 1], e.qs[j + 1], e.strat, e.res[ResPos(e, t, j) + 1], IsFloat(e))
+    \* identical on every call: the same request on the rearranged buffer, under other pivots, gives the same answer
+    /\ e.out2 = "ok" /\ e.res2 = e.res
 
 (* C03 *)
 LanesFrameOK(e) ==
